@@ -184,4 +184,67 @@ theorem C13_fragment_replacement_is_certified (cfg : Config) (wd : String → Na
         rw [hg, hs]
         simp [specAll]
 
+/-- The same inside equations: when the covering node is converted in math mode and is an expression of
+the math fragment, the family range formatting prints for it is certified. -/
+theorem C13_fragment_math_replacement_is_certified (cfg : Config) (wd : String → Nat) (src : String) (root : ENode) (a b : Nat)
+    (t : ANode) (off len : Nat) (d : Twin.Doc) (indent : Nat)
+    (h : formatRangeDoc cfg wd src root a b = .ok t off len d indent) (hx : isExpr t = true) (hq : inFragM t = true)
+    (hmode : ∀ n off' mode, cover (trimRange src.toList (min a src.utf8ByteSize) (min b src.utf8ByteSize)).1
+        (min (trimRange src.toList (min a src.utf8ByteSize) (min b src.utf8ByteSize)).2 src.utf8ByteSize) root 0 .markup = some (n, off', mode) → mode = .math) :
+    rangeCertified cfg.reorder t d = true := by
+  unfold formatRangeDoc at h
+  simp only at h
+  split at h
+  · cases h
+  · rename_i n off' mode hcov
+    split at h
+    · cases h
+    · split at h
+      · cases h
+      · rename_i d' k hrun
+        simp only [RangeDoc.ok.injEq] at h
+        obtain ⟨rfl, rfl, rfl, rfl, _⟩ := h
+        have hkind : n.kind = (prepare n.toNode).kind := by rw [prepare_kind, toNode_kind]
+        have hx' : n.kind.isExpr = true := by rw [hkind]; exact hx
+        have hk : (n.kind == Kind.markup) = false := by
+          have hne : n.kind ≠ .markup := by intro h; rw [h] at hx'; cases hx'
+          simpa using hne
+        rw [hk] at hrun
+        simp only [Bool.false_eq_true, ↓reduceIte, hx'] at hrun
+        have hc := (knot_frag _ _).2.expr _ _ (hmode _ _ _ hcov) hx hq _ _ _ hrun
+        obtain ⟨hg, hs⟩ := hc
+        unfold rangeCertified Twin.Doc.toks Twin.Doc.cmts Twin.Doc.prose Twin.Doc.lits Twin.Doc.verbs
+        rw [hg, hs]
+        simp [specAll]
+
+/-- The same when the covering node is a markup body (the whole document, the body of a content block,
+of a heading or list item …) of the covered fragment. -/
+theorem C13_fragment_markup_replacement_is_certified (cfg : Config) (wd : String → Nat) (src : String) (root : ENode) (a b : Nat)
+    (t : ANode) (off len : Nat) (d : Twin.Doc) (indent : Nat)
+    (h : formatRangeDoc cfg wd src root a b = .ok t off len d indent) (hkm : t.kind = .markup) (hq : inFrag t = true)
+    (hmode : ∀ n off' mode, cover (trimRange src.toList (min a src.utf8ByteSize) (min b src.utf8ByteSize)).1
+        (min (trimRange src.toList (min a src.utf8ByteSize) (min b src.utf8ByteSize)).2 src.utf8ByteSize) root 0 .markup = some (n, off', mode) → mode ≠ .math) :
+    rangeCertified cfg.reorder t d = true := by
+  unfold formatRangeDoc at h
+  simp only at h
+  split at h
+  · cases h
+  · rename_i n off' mode hcov
+    split at h
+    · cases h
+    · split at h
+      · cases h
+      · rename_i d' k hrun
+        simp only [RangeDoc.ok.injEq] at h
+        obtain ⟨rfl, rfl, rfl, rfl, _⟩ := h
+        have hkind : n.kind = (prepare n.toNode).kind := by rw [prepare_kind, toNode_kind]
+        have hk : (n.kind == Kind.markup) = true := by rw [hkind, hkm]; rfl
+        rw [hk] at hrun
+        simp only [↓reduceIte] at hrun
+        have hc := (knot_frag _ _).1.markup _ _ .document (hmode _ _ _ hcov) hkm hq _ _ _ hrun
+        obtain ⟨hg, hs⟩ := hc
+        unfold rangeCertified Twin.Doc.toks Twin.Doc.cmts Twin.Doc.prose Twin.Doc.lits Twin.Doc.verbs
+        rw [hg, hs]
+        simp [specAll]
+
 end Typstyle
